@@ -2,9 +2,11 @@ package checks
 
 import (
 	"bytes"
+	"crypto/sha256"
 	"fmt"
 	"math/big"
 	"math/rand"
+	"runtime/debug"
 
 	"github.com/crate-crypto/go-ipa/bandersnatch/fr"
 	"github.com/crate-crypto/go-ipa/banderwagon"
@@ -127,7 +129,12 @@ func c14run(c *mon.Ctx, proto string, ops []c14op, pool *Pool, rng *rand.Rand, c
 				label = msg[:len(o.label):len(o.label)]
 				labelChk = func() bool { return true }
 			}
-			lt.AppendMessage(msg, label)
+			if i%7 == 3 {
+				// message and label on read-only pages: absorbing is a read-only use of both
+				lt.AppendMessage(roBytesBudget(msg), roBytesBudget(label))
+			} else {
+				lt.AppendMessage(msg, label)
+			}
 			if !msgChk() {
 				c.Fail("input-modified/AppendMessage", "AppendMessage wrote into the spare capacity of the message slice", nil)
 			}
@@ -344,7 +351,60 @@ func c14interleaved(c *mon.Ctx, rng *rand.Rand, pool *Pool) {
 	c.EvalN("interleaved-two-transcripts", int64(len(opsA)+len(opsB)), true)
 }
 
+// c14digestClasses: messages are searched (with SHA-256 itself, no library call) whose challenge digest, read as a
+// little-endian integer, falls just below or just above a multiple k*r of the scalar modulus (k = 1..8: every boundary
+// of the reduction of a 256-bit digest). The library transcript absorbs such a message and is asked for three
+// challenges in a row; all must be the specification's.
+func c14digestClasses(c *mon.Ctx, rng *rand.Rand) {
+	proto, label, cl := "c14-digest", []byte("m"), []byte("c")
+	win := new(big.Int).Lsh(bigOne, 240)
+	found := 0
+	for k := int64(1); k <= 8; k++ {
+		kr := new(big.Int).Mul(big.NewInt(k), ref.R)
+		for _, above := range []bool{false, true} {
+			lo, hi := new(big.Int).Sub(kr, win), kr
+			if above {
+				lo, hi = kr, new(big.Int).Add(kr, win)
+			}
+			if lo.BitLen() > 256 {
+				continue
+			}
+			prefix := append(append([]byte(proto), label...), byte(k), byte(rng.Intn(256)))
+			var msg []byte
+			for i := uint64(0); i < 1<<21 && msg == nil; i++ {
+				cand := append(append([]byte(nil), prefix[len(proto)+len(label):]...), byte(i), byte(i>>8), byte(i>>16), byte(i>>24))
+				d := sha256.Sum256(append(append(append([]byte(nil), prefix[:len(proto)+len(label)]...), cand...), cl...))
+				v := ref.FromLE(d[:])
+				if v.Cmp(lo) >= 0 && v.Cmp(hi) < 0 {
+					msg = cand
+				}
+			}
+			if msg == nil {
+				continue
+			}
+			found++
+			lt, rt := common.NewTranscript(proto), ref.NewTranscript(proto)
+			lt.AppendMessage(msg, label)
+			rt.AppendMessage(msg, label)
+			for n := 0; n < 3; n++ {
+				lc := lt.ChallengeScalar(cl)
+				rc := rt.ChallengeScalar(cl)
+				if FrToBig(&lc).Cmp(rc) != 0 {
+					c.Fail("challenge-differs-from-spec/digest-near-multiple-of-r", fmt.Sprintf("challenge %d after a challenge whose digest lies just %s %d*r differs from the specification", n+1, map[bool]string{false: "below", true: "above"}[above], k), map[string]string{"message": hx(msg)})
+					break
+				}
+			}
+			c.Eval(fmt.Sprintf("digest-class|k=%d|above=%v", k, above), true)
+		}
+	}
+	c.Count("digest_class_messages_found", int64(found))
+}
+
 func runC14(c *mon.Ctx) {
+	defer debug.SetPanicOnFault(debug.SetPanicOnFault(true)) // writes to read-only inputs become panics
+	if c.Mine(1) {
+		c.Case("digest-near-multiples-of-r", func() { c14digestClasses(c, c.Rand("digest-classes")) })
+	}
 	pool := NewPool(c.Rand("pool"), 64)
 	nb := c.Pick(240, 6000)
 	per := 60
